@@ -98,6 +98,10 @@ func chainRows(t *rapid.T, aa bool, n, l int, d nameDom) []gen.Row {
 		}
 	}
 	used := map[string]bool{}
+	variantAt := -1
+	if n >= 2 && rapid.IntRange(0, 4).Draw(t, "casevariant") == 0 {
+		variantAt = rapid.IntRange(1, n-1).Draw(t, "variantat")
+	}
 	rows := make([]gen.Row, n)
 	for i := range rows {
 		var name string
@@ -137,6 +141,28 @@ func chainRows(t *rapid.T, aa bool, n, l int, d nameDom) []gen.Row {
 			}
 			name = base + suffix
 		}
+		// about one alignment in five (decided once per alignment, below) gets a name that is a
+		// variant of an earlier one: same letters in another case, or another last character
+		if i > 0 && i == variantAt {
+			prev := rows[rapid.IntRange(0, i-1).Draw(t, "earlier")].Name
+			var v string
+			switch rapid.IntRange(0, 5).Draw(t, "variant") {
+			case 0:
+				v = strings.ToUpper(prev)
+			case 1:
+				v = strings.ToLower(prev)
+			case 2, 3:
+				v = swapCase(prev)
+			default:
+				v = prev[:len(prev)-1] + "Z"
+				if !utf8.ValidString(v) {
+					v = prev
+				}
+			}
+			if d.legal(v) && !used[v] {
+				name = v
+			}
+		}
 		used[name] = true
 		// residues: mostly the whole set, sometimes a row of one special character
 		var seq string
@@ -149,4 +175,30 @@ func chainRows(t *rapid.T, aa bool, n, l int, d nameDom) []gen.Row {
 		rows[i] = gen.Row{Name: name, Seq: seq}
 	}
 	return rows
+}
+
+func swapCase(s string) string {
+	b := []byte(s)
+	for i, c := range b {
+		switch {
+		case c >= 'a' && c <= 'z':
+			b[i] = c - 32
+		case c >= 'A' && c <= 'Z':
+			b[i] = c + 32
+		}
+	}
+	return string(b)
+}
+
+// caseVariantNames tells whether two names of the rows differ by case only
+func caseVariantNames(rows []gen.Row) bool {
+	seen := map[string]string{}
+	for _, r := range rows {
+		k := strings.ToLower(r.Name)
+		if o, ok := seen[k]; ok && o != r.Name {
+			return true
+		}
+		seen[k] = r.Name
+	}
+	return false
 }
